@@ -76,7 +76,9 @@ def in_domain(name, value, n=None):
     if value != value:
         return False          # NaN belongs to no documented domain
     if name == "nb_points":
-        return n + 1 <= int(value) <= npt_max(n)
+        # 'above (n+1)(n+2)/2 or below n+1' is read on the value as given:
+        # 6.5 is above 6 although it truncates to 6
+        return n + 1 <= value <= npt_max(n)
     if lo is None:
         return True
     if kind == "int":
@@ -108,7 +110,8 @@ def lattice(name, n=None):
         lo_, hi_ = n + 1, npt_max(n)
         return [("below", lo_ - 1), ("at_lo", lo_), ("typical", min(
             2 * n + 1, hi_)), ("at_hi", hi_), ("above", hi_ + 1), ("zero", 0),
-            ("negative", -3)]
+            ("negative", -3), ("above_fraction", hi_ + 0.5),
+            ("below_fraction", lo_ - 0.5)]
     if kind == "int":
         return [("below", -1), ("at", 0), ("just_inside", 1), ("typical", 40),
                 ("large", 10**6), ("fraction", 0.5), ("nan", math.nan)]
